@@ -11,7 +11,11 @@ from typing import Any, Dict, List
 from . import synth
 
 
-def gen_cp_events(seed: int, n_steps: int = 2, n_streams: int = 2, sync_records: bool = True, q: int = 5, base: int = 1_000_000, annotations: bool = False) -> List[Dict[str, Any]]:
+def gen_cp_events(seed: int, n_steps: int = 2, n_streams: int = 2, sync_records: bool = True, q: int = 5, base: int = 1_000_000, annotations: bool = False,
+                  n_threads: int = 1) -> List[Dict[str, Any]]:
+    """n_threads=2 adds a second host thread (larger tid) whose operators run concurrently with the main thread's inside
+    every step and launch kernels on a stream of their own; kernels that a device-wide synchronisation of the main thread
+    would have to wait for beyond its return are not generated (causal consistency)."""
     rng = random.Random(seed)
     evs: List[Dict[str, Any]] = []
     corr = [500]
@@ -87,6 +91,25 @@ def gen_cp_events(seed: int, n_steps: int = 2, n_streams: int = 2, sync_records:
                 last_end[st] = kts + kdur
             t += d + q * rng.randint(0, 2)
         e0 = t
+        if n_threads > 1 and e0 - s0 >= 8 * q:
+            # second host thread: starts inside the step before the main thread's last operator ends
+            tid2, st2 = 5, 7 + 2 * n_streams + 4
+            free.setdefault(st2, base)
+            dev_syncs = [(e["ts"], e["ts"] + e["dur"]) for e in body if e.get("name") == "cudaDeviceSynchronize"]
+            t2 = s0 + q * rng.randint(1, 2)
+            while t2 + 3 * q <= e0 - q:
+                d2 = min(q * rng.randint(3, 6), e0 - q - t2)
+                body.append(synth.host_op(rng.choice(["autograd::engine::evaluate_function: MmBackward0", "aten::mul", "aten::sum"]), t2, d2, tid=tid2))
+                if rng.random() < 0.7 and d2 >= 3 * q:
+                    lts, ldur = t2 + q, q
+                    kts = max(free[st2], lts + q * rng.randint(0, 2))
+                    kdur = q * rng.randint(1, 4)
+                    if not any(lts < b and kts + kdur > b for a, b in dev_syncs):  # launched before the sync returns => must be over when it returns
+                        c = nc()
+                        body.append(synth.launch(lts, ldur, c, tid=tid2))
+                        kernels.append(synth.kernel("void elementwise_kernel", kts, kdur, st2, c))
+                        free[st2] = kts + kdur + q * rng.randint(0, 1)
+                t2 += d2 + q * rng.randint(0, 2)
         evs.append(synth.profiler_step(20 + step, s0, e0 - s0))
         evs.extend(body)
         t = e0 + q * rng.randint(0, 1)
